@@ -98,7 +98,7 @@ type Config struct {
 }
 
 type World struct {
-	rootGid uint64
+	rootGid  uint64
 	mu       sync.Mutex
 	cfg      Config
 	byGid    map[uint64]*Task
@@ -117,23 +117,23 @@ type World struct {
 	// number of tasks blocked on a sim lock (wait-for graph is only searched when >= 2)
 	lockBlocked int
 
-	Steps     int
-	Switches  int
-	Advances  int
-	Hash      uint64 // hash of every decision taken (determinism witness)
-	ILHash    uint64 // hash of context switches and deliveries (interleaving signature)
-	Trace     []Decision
-	Panics    []string
-	Deadlock  string
+	Steps    int
+	Switches int
+	Advances int
+	Hash     uint64 // hash of every decision taken (determinism witness)
+	ILHash   uint64 // hash of context switches and deliveries (interleaving signature)
+	Trace    []Decision
+	Panics   []string
+	Deadlock string
 	// DeadlockSites: the wait sites of the tasks forming the cycle (sorted)
 	DeadlockSites []string
-	Diverged  string
-	Violation string
-	Start     time.Time
-	ClassN    [128]int // decisions per class (indexed by class byte)
-	NonDef    int
-	SitePairs map[string]struct{}
-	lastSite  string
+	Diverged      string
+	Violation     string
+	Start         time.Time
+	ClassN        [128]int // decisions per class (indexed by class byte)
+	NonDef        int
+	SitePairs     map[string]struct{}
+	lastSite      string
 
 	// Invariant is evaluated on the scheduler goroutine at every step, with
 	// all tasks parked. It must not block and must not call instrumented code.
@@ -147,7 +147,19 @@ type World struct {
 	OnIdle func() string
 }
 
+// reinitHooks re-run the initialisers of package-level variables of the
+// instrumented packages (registered by generated init functions, in package
+// initialisation order).
+var reinitHooks []func()
+
+// RegisterReinit is called from generated code.
+func RegisterReinit(f func()) { reinitHooks = append(reinitHooks, f) }
+
 func NewWorld(cfg Config) *World {
+	// every run starts from a fresh process image, created inside the bubble
+	for _, f := range reinitHooks {
+		f()
+	}
 	if cfg.MaxSteps == 0 {
 		cfg.MaxSteps = 200000
 	}
